@@ -131,18 +131,22 @@ Notation R := (cR c).
 (* ---------------------------------------------------------------- hashbrown contract *)
 
 Lemma hb_with_capacity_spec fallible cap (Q : option hb -> st -> Prop) (U : panic -> st -> Prop) s :
-  (forall t s', s_rt s' = s_rt s -> hel t = ∅ -> hb_ok t -> hgl t = bcap (hB t) -> cap <= hgl t -> Q (Some t) s') ->
+  (forall t s', s_rt s' = s_rt s -> hel t = ∅ -> hn t = 0 -> hb_ok t -> hgl t = bcap (hB t) -> cap <= hgl t ->
+                cap < usize_max -> Q (Some t) s') ->
   (fallible = true -> Q None s) ->
   (fallible = false -> U PCapOverflow s) ->
   wp (hb_with_capacity c fallible cap) Q U s.
 Proof.
   intros HS HN HU. unfold hb_with_capacity. destruct (N.eqb_spec cap 0) as [->|Hc].
-  - apply wp_ret. apply HS; [reflexivity|reflexivity|apply hb_ok_new|reflexivity|cbn; lia].
+  - apply wp_ret. apply HS; [reflexivity|reflexivity|reflexivity|apply hb_ok_new|reflexivity|cbn; lia|reflexivity].
   - destruct (cap_to_buckets cap) as [B|] eqn:EB.
     + destruct (layout_ok (cesz c) B).
       * apply wp_bind. apply frame0_use; [apply frame0_tick|].
-        intros [] s' Hs. apply wp_ret. apply HS; [exact Hs|reflexivity|apply hb_ok_empty|reflexivity|].
-        cbn [hb_empty hgl hB]. apply bcap_cap_to_buckets; [lia|exact EB].
+        intros [] s' Hs. apply wp_ret. apply HS; [exact Hs|reflexivity|reflexivity|apply hb_ok_empty|reflexivity| |].
+        -- cbn [hb_empty hgl hB]. apply bcap_cap_to_buckets; [lia|exact EB].
+        -- unfold cap_to_buckets in EB. destruct (N.ltb_spec cap 4); [unfold usize_max; lia|].
+           destruct (N.ltb_spec cap 8); [unfold usize_max; lia|].
+           destruct (N.ltb_spec usize_max (cap * 8)); [discriminate|]. lia.
       * destruct fallible; [apply wp_ret; auto|apply wp_unwind; auto].
     + destruct fallible; [apply wp_ret; auto|apply wp_unwind; auto].
 Qed.
@@ -201,7 +205,7 @@ Proof.
       * assert (bcap (hB t) / 2 <= bcap (hB t)) by (apply N.div_le_upper_bound; lia). hl. lia.
     + intros s' Hs. apply HU; auto.
   - apply wp_bind. apply hb_with_capacity_spec.
-    + intros nt s1 Hs1 Hempty Hnt Hntgl Hge.
+    + intros nt s1 Hs1 Hempty Hn0 Hnt Hntgl Hge _.
       apply wp_bind. apply wp_on_unwind.
       eapply frameU_use; [apply frame_rehash_all| |].
       * intros [] s2 Hs2. apply wp_bind. apply frame0_use; [apply frame0_hb_free|].
@@ -411,6 +415,194 @@ Proof.
         rewrite list_to_emap_lookup by exact Hnd'.
         destruct (lookup_list (ek e) l) as [x|] eqn:Ex; [|reflexivity].
         apply lookup_list_Some in Ex as [Hx Hk]. exfalso. eapply Hel; eauto.
+Qed.
+
+
+Lemma rt_carry_spec s o :
+  0 < R -> lo (s_rt s) = Some o -> hb_ok (main (s_rt s)) -> old_pre (main (s_rt s)) o ->
+  budget R (ocnt o) (hgl (main (s_rt s))) ->
+  wp (rt_carry c) (fun _ s' => carry_Q (s_rt s) R (s_rt s')) (carry_U (s_rt s)) s.
+Proof.
+  intros HR Hlo Hok Hpre Hbud. unfold rt_carry. wp_steps. rewrite Hlo.
+  pose proof (carry_loop_spec (N.to_nat R) s o HR) as H. rewrite N2Nat.id in H.
+  apply H; [lia|assumption..].
+Qed.
+
+(* ---------------------------------------------------------------- growth *)
+
+Definition grow_post (r : rt) (extra : N) (r' : rt) : Prop :=
+  let n := hn (main r) in
+  Inv R r' /\ rt_abs r' = rt_abs r /\
+  hel (main r') = ∅ /\ hn (main r') = 0 /\ hgl (main r') = bcap (hB (main r')) /\
+  n + cdiv n R + N.max extra (cdiv n R) <= hgl (main r') /\
+  (n = 0 -> lo r' = None) /\
+  (0 < n -> exists o', lo r' = Some o' /\ ocnt o' = n /\ oB o' = hB (main r)).
+
+Lemma rt_try_grow_spec fallible extra (Q : bool -> st -> Prop) (U : panic -> st -> Prop) s :
+  Inv R (s_rt s) -> lo (s_rt s) = None ->
+  (forall s', grow_post (s_rt s) extra (s_rt s') -> Q true s') ->
+  (forall s', fallible = true -> s_rt s' = s_rt s -> Q false s') ->
+  (forall s', fallible = false -> s_rt s' = s_rt s -> U PCapOverflow s') ->
+  wp (rt_try_grow c fallible extra) Q U s.
+Proof.
+  intros (HR & Hok & _) Hlo HT HF HU. unfold rt_try_grow. wp_steps. rewrite Hlo.
+  unfold debug_check. cbn [is_some_b negb]. rewrite Bool.andb_false_r. wp_steps.
+  set (t := main (s_rt s)). set (n := hlen t).
+  apply hb_with_capacity_spec.
+  - intros nt s1 Hs1 Hempty Hn0 Hnt Hgl Hcap Hlt.
+    assert (Hsum : n + cdiv n R + N.max extra (cdiv n R) <= hgl nt).
+    { unfold sat_add in *. lia. }
+    destruct Hok as (Hcap0 & Hn & Hkey).
+    destruct (N.eqb_spec n 0) as [Hz|Hz].
+    + wp_steps. apply frame0_use; [apply frame0_hb_free|]. intros [] s2 Hs2. wp_steps.
+      apply HT. rewrite Hs2. cbn [set_rt s_rt]. rewrite Hs1, Hlo. unfold grow_post. cbn [main lo].
+      assert (Hem : hel t = ∅).
+      { apply map_size_empty_inv. fold t in Hn. unfold n, hlen in Hz. lia. }
+      split; [split; [exact HR|split; [exact Hnt|exact I]]|].
+      split. { unfold rt_abs. cbn [main lo]. rewrite Hlo, Hempty. change (hel (main (s_rt s))) with (hel t). rewrite Hem. reflexivity. }
+      fold t. unfold n, hlen in *. repeat split; try assumption; try lia.
+    + unfold take_order_grow. wp_steps.
+      destruct (valid_order (hel t) (order_grow (hel t) (s_perm s1) (s_qperm s1))) eqn:Ev; [|apply wp_oracle].
+      apply valid_order_spec in Ev as (Hnd & Hemap & Hlen & Hin).
+      wp_steps. apply free_old_spec. intros s2 Hs2. wp_steps.
+      apply HT. cbn [set_rt s_rt main lo]. unfold grow_post. cbn [main lo]. fold t.
+      set (l := order_grow (hel t) (s_perm s1) (s_qperm s1)) in *.
+      split.
+      { split; [exact HR|]. split; [exact Hnt|]. cbn [lo main].
+        repeat split; cbn [oit ocnt orem olen]; unfold olen; cbn [ocnt].
+        - fold t in Hn. unfold n, hlen in *. lia.
+        - exact Hnd.
+        - intros e _. cbn [main]. rewrite Hempty. apply lookup_empty.
+        - unfold n, hlen in *. rewrite need_pos by lia. lia. }
+      split. { rewrite (rt_abs_new_old t nt l) by assumption. unfold rt_abs. cbn [main lo]. rewrite Hlo. reflexivity. }
+      unfold n, hlen in *. repeat split; try assumption; try lia.
+      intros _. eexists. split; [reflexivity|]. split; reflexivity.
+  - intros ->. wp_steps. apply HF; reflexivity.
+  - intros ->. apply HU; reflexivity.
+Qed.
+
+Lemma rt_grow_spec extra (Q : unit -> st -> Prop) (U : panic -> st -> Prop) s :
+  Inv R (s_rt s) -> lo (s_rt s) = None ->
+  (forall s', grow_post (s_rt s) extra (s_rt s') -> Q tt s') ->
+  (forall s', s_rt s' = s_rt s -> U PCapOverflow s') ->
+  wp (rt_grow c extra) Q U s.
+Proof.
+  intros HI Hlo HQ HU. unfold rt_grow. apply wp_bind. apply rt_try_grow_spec; [exact HI|exact Hlo| | |].
+  - intros s' Hg. apply wp_ret. apply HQ. exact Hg.
+  - discriminate.
+  - intros s' _ Hs. apply HU. exact Hs.
+Qed.
+
+
+(* ---------------------------------------------------------------- insertion *)
+
+Lemma abs_insert_main t t' o e :
+  hel t' = <[ek e := e]> (hel t) ->
+  rt_abs (RT t' o) = <[ek e := e]> (rt_abs (RT t o)).
+Proof. intros H. unfold rt_abs. cbn [main lo]. rewrite H. symmetry. apply insert_union_l. Qed.
+
+(* what an inserting call without growth does: the new element, at most R moves *)
+Definition ins_post (r : rt) (e : elem) (r' : rt) : Prop :=
+  Inv R r' /\ rt_abs r' = <[ek e := e]> (rt_abs r) /\
+  hB (main r') = hB (main r) /\ rt_capacity r <= rt_capacity r' /\
+  match lo r with
+  | None => lo r' = None /\ hn (main r') = hn (main r) + 1
+  | Some o =>
+      hn (main r') = hn (main r) + 1 + N.min R (ocnt o) /\
+      match lo r' with
+      | Some o' => ocnt o' + R = ocnt o /\ R < ocnt o /\ oB o' = oB o
+      | None => ocnt o <= R
+      end
+  end.
+
+Definition ins_U (r : rt) (e : elem) (p : panic) (s' : st) : Prop :=
+  Inv R (s_rt s') /\ (p = PUser \/ p = PCapOverflow) /\ rt_abs (s_rt s') ⊆ <[ek e := e]> (rt_abs r).
+
+Lemma rt_insert_no_grow_spec e s :
+  Inv R (s_rt s) -> rt_abs (s_rt s) !! ek e = None -> 0 < hgl (main (s_rt s)) ->
+  wp (rt_insert_no_grow c e) (fun _ s' => ins_post (s_rt s) e (s_rt s')) (ins_U (s_rt s) e) s.
+Proof.
+  intros HI Habs Hgl. pose proof HI as (HR & Hok & Ho).
+  rewrite (rt_abs_lookup R) in Habs by exact HI.
+  destruct (s_rt s) as [t lo0] eqn:Ert. cbn [main lo] in *.
+  destruct (hel t !! ek e) as [x|] eqn:He; [discriminate|].
+  unfold rt_insert_no_grow, main_insert_no_grow. wp_steps. rewrite Ert. cbn [main].
+  apply hb_insert_no_grow_spec; [exact Hok|exact He|exact Hgl|].
+  intros t' s1 Hs1 Hok' Hel' HB' Hn' Hle Hge. wp_steps. cbn [set_rt s_rt]. rewrite Hs1, Ert. cbn [lo].
+  destruct lo0 as [o|]; cbn [is_some_b when].
+  - (* a resize is pending: carry *)
+    destruct Ho as (Hit & Hc & Hnd & Hdis & Hneed).
+    set (s2 := set_rt (RT t' (Some o)) s1).
+    assert (Hdis' : forall x, x ∈ orem o -> hel t' !! ek x = None).
+    { intros x Hx. rewrite Hel'. rewrite lookup_insert_ne; [apply Hdis; exact Hx|].
+      intros Heq. apply (lookup_list_None _ _ Habs x Hx). congruence. }
+    eapply wp_conseq; [apply (rt_carry_spec s2 o HR)| |].
+    + reflexivity.
+    + exact Hok'.
+    + repeat split; assumption.
+    + cbn [s2 set_rt s_rt main]. unfold olen in Hneed. destruct (N.eq_dec (ocnt o) 0) as [Hz|Hz].
+      * unfold budget. rewrite Hz, N.min_0_r. destruct (N.ltb_spec R 0); lia.
+      * apply budget_of_need; [exact HR| |lia]. lia.
+    + intros [] s3 HQ. unfold carry_Q in HQ. cbn [s2 set_rt s_rt main lo] in HQ.
+      destruct HQ as (HI3 & Habs3 & HB3 & Hgl3 & Hgl3' & Hn3 & Hlo3).
+      unfold ins_post. cbn [main lo]. split; [exact HI3|]. split; [rewrite Habs3; apply abs_insert_main; exact Hel'|].
+      split; [congruence|]. split; [unfold rt_capacity, hlen; cbn [main]; lia|].
+      split; [lia|]. destruct (lo (s_rt s3)) as [o3|].
+      * destruct Hlo3 as (H1 & H2 & H3). rewrite N.min_l in H1 by lia. repeat split; [lia|exact H2|exact H3].
+      * exact Hlo3.
+    + intros p s3 (HI3 & -> & Hsub). split; [exact HI3|]. split; [left; reflexivity|].
+      etransitivity; [exact Hsub|]. cbn [s2 set_rt s_rt]. rewrite (abs_insert_main t t' (Some o) e Hel'). reflexivity.
+  - wp_steps. unfold ins_post. cbn [set_rt s_rt main lo].
+    split; [split; [exact HR|split; [exact Hok'|exact I]]|].
+    split; [apply abs_insert_main; exact Hel'|].
+    split; [exact HB'|]. split; [unfold rt_capacity, hlen; cbn [main]; lia|]. split; [reflexivity|exact Hn'].
+Qed.
+
+(* an inserting call in general: with growth first when the main table is full *)
+Definition insert_post (r : rt) (e : elem) (r' : rt) : Prop :=
+  Inv R r' /\ rt_abs r' = <[ek e := e]> (rt_abs r) /\
+  (0 < hgl (main r) -> ins_post r e r') /\
+  (hgl (main r) = 0 -> lo r = None /\
+     (* the new table holds the new element and up to R moved ones; the rest waits in the old *)
+     match lo r' with
+     | Some o' => ocnt o' + R = hn (main r) /\ R < hn (main r) /\ oB o' = hB (main r) /\ hn (main r') = 1 + R
+     | None => hn (main r) <= R /\ hn (main r') = 1 + hn (main r)
+     end).
+
+Lemma rt_insert_spec e s :
+  Inv R (s_rt s) -> rt_abs (s_rt s) !! ek e = None ->
+  wp (rt_insert c e) (fun _ s' => insert_post (s_rt s) e (s_rt s')) (ins_U (s_rt s) e) s.
+Proof.
+  intros HI Habs. pose proof HI as (HR & Hok & Ho). unfold rt_insert. wp_steps.
+  destruct (N.eqb_spec (hgl (main (s_rt s))) 0) as [Hz|Hz].
+  - (* main table full: Inv says no resize can be pending *)
+    destruct (lo (s_rt s)) as [o|] eqn:Hlo.
+    { exfalso. destruct Ho as (_ & _ & _ & _ & Hneed). pose proof (need_ge1 (olen o) R HR). lia. }
+    wp_steps. rewrite Hlo. cbn [is_some_b negb assert_].
+    apply wp_on_unwind. apply wp_bind. apply wp_ret.
+    apply rt_grow_spec; [exact HI|exact Hlo| |].
+    + intros s1 Hg. wp_steps.
+      destruct Hg as (HI1 & Habs1 & Hem1 & Hn1 & Hgl1 & Hsum & Hlo0 & Hlo1).
+      assert (Hgl1' : 0 < hgl (main (s_rt s1))) by lia.
+      destruct (N.eqb_spec (hgl (main (s_rt s1))) 0) as [Hz1|Hz1]; [lia|].
+      eapply wp_conseq; [apply rt_insert_no_grow_spec; [exact HI1|rewrite Habs1; exact Habs|exact Hgl1']| |].
+      * intros [] s2 (HI2 & Habs2 & HB2 & Hcap2 & Hlo2). unfold insert_post.
+        split; [exact HI2|]. split; [rewrite Habs2, Habs1; reflexivity|].
+        split; [intros; lia|]. intros _. split; [exact Hlo|].
+        destruct (N.eq_dec (hn (main (s_rt s))) 0) as [Hn0|Hn0].
+        -- rewrite (Hlo0 Hn0) in Hlo2. destruct Hlo2 as [-> Hn2]. lia.
+        -- destruct Hlo1 as (o1 & Ho1 & Hc1 & HB1); [lia|]. rewrite Ho1 in Hlo2.
+           destruct Hlo2 as [Hn2 Hlo2]. destruct (lo (s_rt s2)) as [o2|].
+           ++ destruct Hlo2 as (H1 & H2 & H3). rewrite N.min_l in Hn2 by lia. repeat split; [lia|lia|congruence|lia].
+           ++ rewrite N.min_r in Hn2 by lia. split; lia.
+      * intros p s2 (HI2 & Hp & Hsub). split; [exact HI2|]. split; [exact Hp|]. rewrite <- Habs1. exact Hsub.
+    + intros s1 Hs1. apply frame0_use; [apply frame0_drop_elem|]. intros [] s2 Hs2.
+      split; [rewrite Hs2, Hs1; exact HI|]. split; [right; reflexivity|].
+      rewrite Hs2, Hs1. apply insert_subseteq. exact Habs.
+  - eapply wp_conseq; [apply rt_insert_no_grow_spec; [exact HI|exact Habs|lia]| |].
+    + intros [] s1 Hp. unfold insert_post. pose proof Hp as (H1 & H2 & H3).
+      split; [exact H1|]. split; [exact H2|]. split; [intros _; exact Hp|intros; lia].
+    + auto.
 Qed.
 
 End Proofs.
